@@ -724,7 +724,7 @@ def replay_rows(fam, x):
                     row = [0.37 if p0[0] == 's' else p0[0], 0.61 if p0[1] == 's' else p0[1]]
                     out = float(getattr(c, meth)(np.array([row]))[0])
                     want = 0.0 if 0.0 in p0 else 1.0
-                    if abs(out - want) > 1e-9:
+                    if not (abs(out - want) <= 1e-9):        # NaN counts as a failure
                         return {'fam': fam, 'name': 'rows', 'kind': kind, 'meth': meth, 'pat': pat, 'theta': th,
                                 'u': row[0], 'v': row[1], 'detail': f'{meth}({row})={out} expected {want}'}
                 else:
